@@ -825,8 +825,8 @@ def check_C16(ctx):
 
 
 def check_C10(ctx):
-    ctx.v.cov["rule"] = ("all 51 constants (+ out-of-range ids to 55) and all enum variants with parameters 0..=12 x dispatcher kind "
-                         "(enum, ConstCode, FuncCode*, factory, stats wrapper) x {read, write, len} x value grid x endianness; "
+    ctx.v.cov["rule"] = ("all 51 constants (+ out-of-range ids to 55), all 59 published constant NAMES (ConstCode<{code_consts::N}>) and all enum variants with parameters 0..=12 x dispatcher kind "
+                         "(enum, ConstCode by id, ConstCode by name, FuncCode*, factory, stats wrapper) x {read, write, len} x value grid x endianness; "
                          "bytes/values/lengths vs the direct method through the model generated from the dispatch tables")
     rng = ctx.rng
     vals = [0, 1, 2, 3, 4, 5, 6, 7, 8, 9, 10, 11, 12, 15, 16, 63, 64, 100, 255, 256, 1000, 1023, 1024, 65535, (1 << 20) + 3, rng.getrandbits(24), rng.getrandbits(31)]
@@ -848,8 +848,10 @@ def check_C10(ctx):
                     ops.append([1, opk, cid, 0, v])
         for var in range(11):
             for p in ([0] if var < 6 else range(0, 13)):
-                for dk in (0, 2, 3, 4, 5):
+                for dk in (0, 2, 3, 4, 5, 6):
                     for opk in (0, 1, 2):
+                        if dk == 6 and (p > 10 or (var in (6, 8) and p == 0)):
+                            continue   # no published constant of that name
                         if dk == 3 and opk != 0:
                             continue
                         if dk == 4 and opk == 2:
@@ -870,7 +872,11 @@ def check_C10(ctx):
                             ops.append([dk, opk, var, p, v])
         rng.shuffle(ops)
         if ctx.tier == "quick":
-            ops = ops[: 30000]
+            # the by-name constants (kind 6) and their direct counterparts (kind 5) are always all kept
+            keep = [o for o in ops if o[0] in (5, 6)]
+            rest = [o for o in ops if o[0] not in (5, 6)]
+            ops = keep + rest[: max(0, 30000 - len(keep))]
+            rng.shuffle(ops)
         for i in range(0, len(ops), 150):
             cases.append(Case([[6, E], []] + ops[i:i + 150], "dispatch/E%d" % E, levels=(2,)))
 
